@@ -228,11 +228,41 @@ func ParseMessage(reader *bufio.Reader) (*Message, error) {
 	if contentLength < 0 {
 		return nil, errors.New("invalid negative Content-Length field")
 	}
-	msg.body = make([]byte, contentLength)
-	if _, err = io.ReadFull(reader, msg.body); err != nil {
+	if msg.body, err = readBody(reader, contentLength); err != nil {
 		return nil, err
 	}
 	return msg, nil
+}
+
+// maxBodyStep bounds the memory reserved for a body ahead of the bytes actually received
+const maxBodyStep = 64 * 1024
+
+// readBody reads exactly n bytes. The buffer starts small and is doubled only when it is
+// full of received data, so a bogus Content-Length can neither panic in make nor reserve
+// memory for bytes that never arrive.
+func readBody(reader *bufio.Reader, n int) ([]byte, error) {
+	c := n
+	if c > maxBodyStep {
+		c = maxBodyStep
+	}
+	body := make([]byte, 0, c)
+	for len(body) < n {
+		if len(body) == cap(body) {
+			c = 2 * cap(body)
+			if c > n {
+				c = n
+			}
+			bigger := make([]byte, len(body), c)
+			copy(bigger, body)
+			body = bigger
+		}
+		m, err := io.ReadFull(reader, body[len(body):cap(body)])
+		body = body[:len(body)+m]
+		if err != nil {
+			return nil, err
+		}
+	}
+	return body, nil
 }
 
 func (m *Message) AddHeader(name string, value string) {
